@@ -437,23 +437,36 @@ func ruleTB9b() Rule {
 					if !found {
 						rr.Unkp(c.P, "interp|compound-assign strips '='", cc.Pos(), "no slice of the operator string in the assignment action")
 					}
-				case len(p.RHS) == 3 && (p.RHS[1] == "LAND" || p.RHS[1] == "LOR"), len(p.RHS) == 5 && p.RHS[1] == "'?'":
-					ast.Inspect(cc, func(n ast.Node) bool {
-						be, ok := n.(*ast.BinaryExpr)
-						if !ok {
-							return true
-						}
-						if v, isC := constInt(info, be.Y); isC && v == 0 && isIntegerType(info.Types[be.X].Type) {
-							key := fmt.Sprintf("interp|truth test in action %d (%s)|%s", p.N, p.RHS[1], exprStr(be))
-							if be.Op == token.NEQ || be.Op == token.EQL {
-								rr.OKp(c.P, key, be.Pos(), "zero-test", "truth is `!= 0`")
-							} else {
-								rr.Badp(c.P, key, be.Pos(), "C treats every non-zero value as true; `"+exprStr(be)+"` does not (negative operands)")
-							}
-						}
-						return true
-					})
 				}
+			}
+			// truth tests in the actions of the lazily evaluated operators (the marker
+			// productions that open the gate included)
+			lazyProds := map[*Production]bool{}
+			for _, o := range c.gate().operands {
+				for _, og := range o.prod.org {
+					lazyProds[og.prod] = true
+				}
+			}
+			for _, p := range gi.G.Prods {
+				cc := gi.Checked.Cases[p.N]
+				if cc == nil || !lazyProds[p] {
+					continue
+				}
+				ast.Inspect(cc, func(n ast.Node) bool {
+					be, ok := n.(*ast.BinaryExpr)
+					if !ok {
+						return true
+					}
+					if v, isC := constInt(info, be.Y); isC && v == 0 && isIntegerType(info.Types[be.X].Type) {
+						key := fmt.Sprintf("interp|truth test in the action of `%s`|%s", p, exprStr(be))
+						if be.Op == token.NEQ || be.Op == token.EQL {
+							rr.OKp(c.P, key, be.Pos(), "zero-test", "truth is `!= 0`")
+						} else {
+							rr.Badp(c.P, key, be.Pos(), "C treats every non-zero value as true; `"+exprStr(be)+"` does not (negative operands)")
+						}
+					}
+					return true
+				})
 			}
 		}}
 }
@@ -513,8 +526,8 @@ func switchesIn(p *core.Program, info *types.Info, root ast.Node) []*swInfo {
 // AR1 / AR2: effects executed inside reductions.
 
 func ruleAR() Rule {
-	return Rule{ID: "AR", Kind: "must-not", Floor: 4,
-		Doc: "a yacc evaluator reduces both operands of &&, || and ?: before the operator's own action runs, so no variable store (ExecEnv.Set) and no trapping operator (/ % << >>) may be executed inside a reduce action derivable from a lazily evaluated operand (AR1); and every store must be conditional on no fault having been recorded (AR2)",
+	return Rule{ID: "AR", Kind: "must-not", Floor: 9,
+		Doc: "a yacc evaluator reduces both operands of &&, || and ?: before the operator's own action runs. Either no variable store (ExecEnv.Set) and no trapping operator (/ % << >>) is executed inside a reduce action derivable from a lazily evaluated operand, or the operand is gated (AR1): a marker production reduced before the operand's first token opens a gate iff the deciding operand has the value for which C evaluates the operand, the first action after the operand closes it, nested gates inherit, only reduce actions touch the gate, and every store, variable read and trapping operator below the actions is conditional on it. Every store is also conditional on no fault having been recorded (AR2)",
 		Run: func(c *Ctx, rr *core.RuleResult) {
 			gi := c.grammar("interp")
 			if gi.Err != nil {
@@ -632,26 +645,38 @@ func ruleAR() Rule {
 					rr.Badp(c.P, key, pos, fmt.Sprintf("the operand C would skip is fully reduced first, and reductions below %s execute %d variable store(s) and %d trapping operator(s) (e.g. `%s`): the skipped operand still assigns / still fails", operand, len(sets), len(traps), firstOf(sets, traps)))
 				}
 			}
-			n := 0
-			for _, p := range gi.G.Prods {
-				cc := gi.Checked.Cases[p.N]
+			// the lazily evaluated operands, read from the grammar with its marker
+			// nonterminals inlined
+			g := c.gate()
+			n := map[string]bool{}
+			gatedAny := false
+			for _, o := range g.operands {
+				cc := gi.Checked.Cases[o.holder.prod.N]
 				if cc == nil {
 					continue
 				}
-				switch {
-				case len(p.RHS) == 3 && p.RHS[1] == "LAND":
-					report("&&", p.RHS[2], cc.Pos())
-					n++
-				case len(p.RHS) == 3 && p.RHS[1] == "LOR":
-					report("||", p.RHS[2], cc.Pos())
-					n++
-				case len(p.RHS) == 5 && p.RHS[1] == "'?'":
-					report("?:", p.RHS[2], cc.Pos())
-					n++
+				n[strings.Fields(o.op)[0]] = true
+				if o.marker == nil {
+					// nothing runs between the deciding operand and this one: it must be effect-free
+					if o.op != "?: else" {
+						report(strings.Fields(o.op)[0], o.sym, cc.Pos())
+					}
+					continue
+				}
+				gatedAny = true
+				key := "interp|lazy operand of " + o.op + "|gated"
+				if how, err := c.gatedOperand(g, o); err != nil {
+					rr.Badp(c.P, key, cc.Pos(), err.Error()+": the operand C would skip still assigns / still fails")
+				} else {
+					rr.OKp(c.P, key, cc.Pos(), "gated", how)
 				}
 			}
-			if n < 3 {
-				rr.Unkp(c.P, "interp|short-circuit productions", gi.AstFile.Pos(), fmt.Sprintf("found %d of the 3 lazily evaluated operators in the grammar", n))
+			if len(n) < 3 {
+				rr.Unkp(c.P, "interp|short-circuit productions", gi.AstFile.Pos(), fmt.Sprintf("found %d of the 3 lazily evaluated operators in the grammar", len(n)))
+			}
+			if gatedAny && g.enter != nil && g.leave != nil && g.dead != nil {
+				c.gateShape(g, rr)
+				c.gateEffects(g, rr)
 			}
 			// AR2: stores conditional on the error state
 			errField := c.fieldVar("interp", "lexer", "err")
